@@ -71,6 +71,7 @@ def _digest(extra):
         p = os.path.join(REPO, f)
         if os.path.exists(p):
             h.update(open(p, "rb").read())
+    h.update(_tree_digest().encode())      # every other file of the tree (build script, data files read at compile time, ...)
     h.update(repr(extra).encode())
     return h.hexdigest()[:32]
 
